@@ -1,0 +1,10 @@
+//go:build !verif
+
+package klog
+
+import "github.com/jotaen/klog/klog/app"
+
+// wrapContext is a no-op in regular builds. (See hook_verif.go.)
+func wrapContext(ctx app.Context) app.Context {
+	return ctx
+}
